@@ -163,6 +163,8 @@ impl Db {
             index
         };
 
+        #[cfg(anything_verif)]
+        crate::verif_hooks::crash_point("index-opened");
         let tokenizer = TextAnalyzer::from(NgramTokenizer::new(1, 7, true)).filter(LowerCaser);
         index.tokenizers().register("ngram", tokenizer);
 
@@ -201,6 +203,8 @@ impl Db {
             // the ranking of equally scored constants) the same for every build.
             let mut writer = db.index.writer_with_num_threads(1, 50_000_000)?;
             writer.delete_all_documents()?;
+            #[cfg(anything_verif)]
+            crate::verif_hooks::crash_point("after-delete-all");
 
             for name in config.assets() {
                 if name == SOURCES_BIN_GZ {
@@ -213,14 +217,22 @@ impl Db {
                 }
             }
 
+            #[cfg(anything_verif)]
+            crate::verif_hooks::crash_point("before-commit");
             writer.commit()?;
+            #[cfg(anything_verif)]
+            crate::verif_hooks::crash_point("after-commit");
             db.reader.reload()?;
+            #[cfg(anything_verif)]
+            crate::verif_hooks::crash_point("after-reload");
 
             config.meta.version = Some(config.this_version.to_owned());
             config.meta.database_hash = Some(hash);
 
             if !in_memory {
                 config.write_meta()?;
+                #[cfg(anything_verif)]
+                crate::verif_hooks::crash_point("after-write-meta");
             }
         }
 
@@ -264,6 +276,8 @@ impl Db {
             }
 
             writer.add_document(doc)?;
+            #[cfg(anything_verif)]
+            crate::verif_hooks::crash_point("add-document");
         }
 
         Ok(())
